@@ -54,13 +54,25 @@ pub fn eval(p: &Prog) -> (String, Option<String>, bool, u64, bool) {
     let out = run_prog(p);
     let fuel = model_fuel(&out);
     let line = show_run(&out, false);
-    // locate the project goal (top level of the body)
-    let pos = match p.body.iter().position(|g| matches!(g, PG::Project(..))) {
+    // locate the project goal (top level of the body, bare or wrapped in `closure { }`)
+    let is_proj = |g: &PG| match g {
+        PG::Project(..) => true,
+        PG::Closure(c) => c.len() == 1 && matches!(c[0], PG::Project(..)),
+        _ => false,
+    };
+    let pos = match p.body.iter().position(|g| is_proj(g)) {
         Some(i) => i,
         None => return (line, None, false, fuel, false),
     };
+    // a project inside `closure { }` is built anew for every state that reaches it: the property holds in full there,
+    // for any number of reaching states (outside the known finding D16)
+    let wrapped = matches!(&p.body[pos], PG::Closure(_));
     let (vs, body) = match &p.body[pos] {
         PG::Project(vs, b) => (vs.clone(), b.clone()),
+        PG::Closure(c) => match &c[0] {
+            PG::Project(vs, b) => (vs.clone(), b.clone()),
+            _ => unreachable!(),
+        },
         _ => unreachable!(),
     };
     // the states that reach the project goal
@@ -70,7 +82,7 @@ pub fn eval(p: &Prog) -> (String, Option<String>, bool, u64, bool) {
         _ => return (line, None, false, fuel, false),
     };
     let n = states.len();
-    if n >= 2 {
+    if n >= 2 && !wrapped {
         // known finding region: the recorded behaviour is the panic at the recorded call site
         let known = line.starts_with("PANIC") && line.contains("lterm.rs:143");
         let fail = Some(if known {
@@ -143,6 +155,8 @@ fn corpus() -> Vec<&'static str> {
         "prog 3 2 0 - eq v2 i3 eq v1 v2 project 2 1 2 2 isnum v900 eq v0 cons v900 cons v901 nil",
         // D16: reached by two states
         "prog 2 1 0 - call member 2 v1 cons i1 cons i2 nil project 1 1 1 eq v0 v900",
+        // … the same inside `closure { }`: every state builds its own project goal and sees its own value
+        "prog 2 1 0 - call member 2 v1 cons i1 cons i2 cons i3 nil closure 1 project 1 1 1 eq v0 v900",
         // the projected value is FULLY walked: elements bound after the list was built are seen
         "prog 4 1 0 - eq v1 cons v2 cons v3 nil eq v2 i2 eq v3 i3 project 1 1 2 isground v900 eq v0 v900",
         "prog 4 1 0 - eq v1 cons v2 cons v3 nil eq v2 i2 project 1 1 2 isground v900 eq v0 v900",
@@ -190,7 +204,16 @@ pub fn run(seed: u64, thorough: bool, out: &mut Out) {
                 _ => PG::Conde(vec![vec![PG::IsNum(cell(&mut r))], vec![PG::Eq(T::Var(r.below(nq)), T::Num(9))]]),
             });
         }
-        body.push(PG::Project(vs, pb));
+        // 1 in 3: wrapped in `closure { }` (then several reaching states are fine: each builds its own project goal)
+        if r.chance(1, 3) {
+            out.stat("project_inside_closure");
+            if r.chance(1, 2) && !body.iter().any(|g| matches!(g, PG::Call(..) | PG::Conde(..))) {
+                body.push(PG::Call("member".into(), vec![var(&mut r), T::list(vec![T::Num(1), T::Num(2), T::Num(3)])]));
+            }
+            body.push(PG::Closure(vec![PG::Project(vs, pb)]));
+        } else {
+            body.push(PG::Project(vs, pb));
+        }
         // goals after the project goal: bindings made later must not be seen by the projection
         for _ in 0..r.below(3) {
             body.push(if r.chance(1, 2) { PG::Eq(var(&mut r), T::Num(r.range(1, 5) as isize)) } else { g.goal(&mut r, 1) });
